@@ -1,6 +1,7 @@
-CONSTANTS MaxSize = 1
+CONSTANTS MaxSize = 2
  MaxDepth = 1
  Rich = FALSE
+ WithUnsupported = FALSE
 SPECIFICATION Spec
 INVARIANT Inv
 CHECK_DEADLOCK FALSE
